@@ -166,7 +166,7 @@ fn pattern_usable(pattern: &Option<Vec<bool>>, n: usize) -> Result<(), &'static 
 /// Expected result of a decoder constructor: Err(class) = must be null.
 fn model_dec_ctor(source: &Source, content: &[u8], imp: &str, punct: &str) -> Result<ModelDec, String> {
     let text = text_for(source, content).map_err(|e| format!("unreadable file ({})", e))?;
-    let h = SparseMatrix::from_alist(&text).map_err(|e| format!("malformed alist ({})", e))?;
+    let h = parse_untrusted(&text).map_err(|e| format!("malformed alist ({})", e))?;
     let imp: DecoderImplementation = imp.parse().map_err(|_| "unknown implementation".to_string())?;
     let pattern = parse_pattern(punct).map_err(|_| "malformed puncturing pattern".to_string())?;
     let mut usable = pattern_usable(&pattern, h.num_cols());
@@ -185,7 +185,7 @@ fn model_enc_ctor(source: &Source, content: &[u8], punct: &str) -> Result<Result
         Ok(t) => t,
         Err(e) => return Ok(Err(format!("unreadable file ({})", e))),
     };
-    let h = match SparseMatrix::from_alist(&text) {
+    let h = match parse_untrusted(&text) {
         Ok(h) => h,
         Err(e) => return Ok(Err(format!("malformed alist ({})", e))),
     };
@@ -245,7 +245,14 @@ fn gen_content(g: &mut Stream, for_encoder: bool) -> (Vec<u8>, String) {
         1 | 2 => Tail::Staircase,
         _ => Tail::Invertible,
     };
-    let m = random_code(g, k, r, tail, 2);
+    let mut m = random_code(g, k, r, tail, 2);
+    if !for_encoder && g.chance(1, 6) {
+        // a decoder takes any parity-check matrix, also one with redundant checks (as many or
+        // more rows than columns); seeded change C19-r5-3 rejects those in the C constructor only
+        let cols = 3 + g.below(8) as usize;
+        let rows = cols + g.below(4) as usize;
+        m = crate::gf2::random_decoder_matrix(g, rows, cols);
+    }
     let text = if g.chance(1, 2) { m.to_alist() } else { crate::c08::own_unpadded(&m) };
     let b = text.as_bytes().to_vec();
     match g.below(16) {
@@ -315,7 +322,7 @@ pub fn gen_history(seed: u64, idx: u64) -> Vec<FfiOp> {
                 2..=6 => Source::File,
                 _ => Source::Text,
             };
-            let n = SparseMatrix::from_alist(&as_c_text(&content)).map(|h| h.num_cols()).unwrap_or(6);
+            let n = parse_untrusted(&as_c_text(&content)).map(|h| h.num_cols()).unwrap_or(6);
             let imp = gen_imp(&mut g, &names);
             let punct = gen_punct(&mut g, n);
             if let Ok(m) = model_dec_ctor(&source, &content, &imp, &punct) {
@@ -341,7 +348,7 @@ pub fn gen_history(seed: u64, idx: u64) -> Vec<FfiOp> {
                 2..=6 => Source::File,
                 _ => Source::Text,
             };
-            let n = SparseMatrix::from_alist(&as_c_text(&content)).map(|h| h.num_cols()).unwrap_or(6);
+            let n = parse_untrusted(&as_c_text(&content)).map(|h| h.num_cols()).unwrap_or(6);
             let punct = gen_punct(&mut g, n);
             if let Ok(Ok(m)) = model_enc_ctor(&source, &content, &punct) {
                 encs[slot] = Some(m);
